@@ -42,10 +42,11 @@ Definition obs_server (hm : bool) (h : list stim) : T :=
   let os := snd (run hm h) in
   Tl [Tl (flat_map enc_call os); Tl (flat_map enc_ev os)].
 
-Definition enc_cev (e : cev) : T :=
+(* error events are not compared on the client side: the property only counts connected / disconnected *)
+Definition enc_cev (e : cev) : list T :=
   match e with
-  | KConnected => Tl [Tn 0] | KDisconnected => Tl [Tn 1] | KErr => Tl [Tn 2] | KData d => Tl [Tn 3; Tb d]
+  | KConnected => [Tl [Tn 0]] | KDisconnected => [Tl [Tn 1]] | KErr => [] | KData d => [Tl [Tn 3; Tb d]]
   end.
 Definition obs_client (h : list cstim) : T :=
   let '(x, os) := crun h in
-  Tl [Tl (map enc_cev os); Tbool x.(conn); Tl (map TN x.(pending)); Tbool x.(closeflag)].
+  Tl [Tl (flat_map enc_cev os); Tbool x.(conn); Tl (map TN x.(pending)); Tbool x.(closeflag)].
